@@ -92,3 +92,30 @@ func VH_C17_BanTable_sym() {
 	}
 	vAssert("second_ban_is_saved_too", writes > writesAfterFirst)
 }
+
+// Bans of different addresses do not touch each other: after banning A (temporarily or for good) and then B, both
+// are banned with their own expiry, and addresses whose text merely extends or shortens a banned one (10.0.0.1 vs
+// 10.0.0.10 / 10.0.0.12 / 10.0.0) are not banned.
+func VH_C17_BansOfDifferentAddressesAreIndependent_sym() {
+	vfsReset()
+	bf := &BanFile{filePath: "/cfg/Banlist.yaml", banList: map[string]*time.Time{}}
+	untilA, untilB := vTimeAny("until_a"), vTimeAny("until_b")
+	permA, permB := vBool("a_permanent"), vBool("b_permanent")
+	var pa, pb *time.Time
+	if !permA {
+		pa = &untilA
+	}
+	if !permB {
+		pb = &untilB
+	}
+	vAssert("ban_a_ok", bf.Add("10.0.0.1", pa) == nil)
+	vAssert("ban_b_ok", bf.Add("10.9.9.9", pb) == nil)
+	ba, ua := bf.IsBanned("10.0.0.1")
+	bb, ub := bf.IsBanned("10.9.9.9")
+	vAssert("first_ban_survives_the_second", ba && (permA && ua == nil || !permA && ua != nil && ua.Equal(untilA)))
+	vAssert("second_ban_recorded", bb && (permB && ub == nil || !permB && ub != nil && ub.Equal(untilB)))
+	for _, other := range []string{"10.0.0.10", "10.0.0.12", "10.0.0.100", "10.0.0", "110.0.0.1", "10.0.0.1:5500"} {
+		b, _ := bf.IsBanned(other)
+		vAssert("address_with_a_similar_text_is_not_banned", !b)
+	}
+}
